@@ -56,7 +56,7 @@ Abs == [nodes |-> [n \in Nodes |-> [delay |-> ndelay[n], dist |-> ndist[n], phas
 Init == /\ ndelay \in [Nodes -> Delays]
         /\ ndist = [n \in Nodes |-> "D1"]
         /\ conns = {}
-        /\ hist = <<>>
+        /\ hist = <<[op |-> "init", delays |-> ndelay]>>
 
 Connect(dst, src, skip, d, dist, shadow, window, blocking) ==
   /\ src # dst
